@@ -25,8 +25,8 @@ def gcStep (u : Nat) (work : List Nat) : M (List Nat) := do
   let n ← M.ofOption .key (m.tbl.succ[u]?)
   M.modify fun m => { m with tbl := { m.tbl with succ := m.tbl.succ.erase u } }
   -- `u_ = self._pred.pop((i, v, w))`
-  let u' ← M.ofOption .key (m.pred[n]?)
-  M.modify fun m => { m with pred := m.pred.erase n }
+  let u' ← M.ofOption .key (m.pred[n.key]?)
+  M.modify fun m => { m with pred := m.pred.erase n.key }
   -- `uref = self._ref.pop(u)`
   let uref ← M.ofOption .key (m.ref[u]?)
   M.modify fun m => { m with ref := m.ref.erase u, minFree := min u m.minFree }
